@@ -10,7 +10,10 @@ combination of
     http2 option in {True, False}
     client offer in all ordered lists of length <= 3 over {h2, h3, http/1.1, http/1.0, http/0.9, x-unknown}
 
-and the returned value is judged by an oracle written from the property statement only.  A second leg
+and the returned value is judged by an oracle written from the property statement only.  The state of the upstream
+connection is an input dimension as well: a known upstream protocol (handshake completed, ``server.alpn`` set) is crossed
+with ``server.state`` in {OPEN, CAN_READ, CAN_WRITE, CLOSED} (peer half-closed / closed after its handshake but before
+``tls_start_client`` runs); a protocol that is known stays known.  A second leg
 performs real in-memory TLS handshakes (stdlib ``ssl`` client with MemoryBIOs against the pyOpenSSL
 connection) and applies the same oracle to ``selected_alpn_protocol()`` as seen by the client.
 
@@ -64,9 +67,12 @@ REQUIRED = ["callback.offered_or_none", "callback.upstream_or_none", "callback.n
             "callback.outer_http11_only", "callback.selected_some", "handshake.oracle", "handshake.selected_some",
             "history.outer.oracle", "history.inner.oracle", "history.inner.selected_some", "history.inner_after_outer_alpn",
             "realstack.outer_http11_only", "realstack.selected_some",
-            "pair.oracle", "pair.upstream_negotiated_none", "pair.upstream_negotiated_some", "pair.client_selected_some"]
+            "pair.oracle", "pair.upstream_negotiated_none", "pair.upstream_negotiated_some", "pair.client_selected_some",
+            "callback.upstream_known_but_not_open", "handshake.upstream_known_but_not_open", "pair.upstream_closed_after_handshake"]
 RULE = (
-    "case = (layer stack, upstream ALPN, http2 option, client offer list); the callback leg enumerates all 3 x 8 x 2 x 259 "
+    "case = (layer stack, upstream ALPN, upstream connection state, http2 option, client offer list); the callback leg enumerates all "
+    "180 configurations (3 stacks x 2 http2 x [unknown upstream x {CLOSED, OPEN} + 7 known upstream values x {OPEN, CAN_READ, "
+    "CAN_WRITE, CLOSED}]) x 259 "
     "combinations (offer lists of length<=3 over 6 protocol classes, ordered, with repetition) in both tiers; the handshake "
     "leg runs real TLS handshakes for all offer lists of length<=2 (quick) / <=3 plus random longer lists with random unknown "
     "protocol names (thorough), and a client without ALPN extension; the history leg runs outer+inner handshakes on one client "
@@ -93,7 +99,11 @@ PROTOS = [b"h2", b"h3", b"http/1.1", b"http/1.0", b"http/0.9", b"x-unknown"]
 UPSTREAMS = [None, b"", *PROTOS]
 STACKS = ["swp-outer", "regular-inner", "transparent"]
 OFFERS = [tuple(c) for n in range(0, 4) for c in itertools.product(PROTOS, repeat=n)]  # 259
-CONFIGS = [(s, u, h) for s in STACKS for u in UPSTREAMS for h in (True, False)]  # 48
+SERVER_STATES = ["OPEN", "CAN_READ", "CAN_WRITE", "CLOSED"]
+# upstream unknown: no connection (CLOSED) or a TCP connection without TLS yet (OPEN); upstream known: the handshake completed
+# and the connection is open, half-closed in either direction, or closed by the time the client handshake starts
+CONFIGS = [(s, u, h, st) for s in STACKS for u in UPSTREAMS for h in (True, False)
+           for st in (("CLOSED", "OPEN") if u is None else SERVER_STATES)]  # 180
 N_ENUM = len(CONFIGS) * len(OFFERS)
 
 NONE = "none"
@@ -148,7 +158,7 @@ class World:
     def close(self):
         self.tctx_cm.__exit__(None, None, None)
 
-    def start_client(self, stack, upstream, http2) -> SSL.Connection:
+    def start_client(self, stack, upstream, http2, state="CLOSED") -> SSL.Connection:
         if self.http2 != http2:
             self.tctx.configure(self.ta, http2=http2)
             self.http2 = http2
@@ -157,6 +167,11 @@ class World:
         ctx = context.Context(client, self.tctx.options)
         ctx.server.address = ("example.com", 443)
         ctx.server.alpn = upstream
+        ctx.server.state = connection.ConnectionState[state]
+        if upstream is not None:  # the upstream TLS handshake has completed
+            ctx.server.tls = True
+            ctx.server.timestamp_start = 1.5
+            ctx.server.timestamp_tls_setup = 2.0
         # Layer.__init__ appends itself to context.layers, exactly as in production.
         assert ctx.layers == []
         if stack == "swp-outer":
@@ -175,8 +190,10 @@ class World:
         return data.ssl_conn
 
 
-def judge(ctx, leg, stack, upstream, http2, offers, selected):
+def judge(ctx, leg, stack, upstream, http2, offers, selected, state=None):
     bad = oracle(stack, upstream, http2, offers, selected)
+    if upstream is not None and state not in (None, "OPEN"):
+        ctx.count(f"{leg}.upstream_known_but_not_open")
     ctx.count(f"{leg}.offered_or_none" if leg == "callback" else f"{leg}.oracle")
     if leg == "callback":
         if stack == "swp-outer":
@@ -190,7 +207,7 @@ def judge(ctx, leg, stack, upstream, http2, offers, selected):
     if bad:
         ctx.violation(
             f"{leg}:" + "+".join(bad),
-            {"stack": stack, "upstream": upstream, "http2": http2, "offers": list(offers), "selected": selected},
+            {"stack": stack, "upstream": upstream, "upstream_state": state, "http2": http2, "offers": list(offers), "selected": selected},
             mechanism=classify(stack, upstream, http2, offers, bad),
         )
 
@@ -389,6 +406,7 @@ def run_realstack(ctx, w, top_cls, http2, offers):
 # ---- real upstream handshake first, then the client handshake (ServerTLSLayer >> ClientTLSLayer) -----------------------------
 
 UPSTREAM_PEERS = [(), ("h2", "http/1.1"), ("http/1.1",), ("h2",), ("x-unknown",), ("h3", "x-unknown", "http/1.0")]
+PAIR_CLOSE_QUICK = [(b"h2", b"http/1.1"), (b"http/1.1", b"h2"), (b"h2",), (b"http/1.1",), (b"h3", b"h2"), (b"x-unknown", b"h2")]
 PAIR_CLIENT_QUICK = [None] + [(p,) for p in PROTOS] + [(b"h2", b"http/1.1"), (b"http/1.1", b"h2"), (b"h3", b"h2"), (b"x-unknown", b"h2"),
                                                         (b"http/1.0", b"x-unknown")]
 
@@ -431,7 +449,10 @@ def upstream_pem(w) -> str:
     return w._upstream_pem
 
 
-def run_pair(ctx, w, stack, upstream_alpn, http2, offers):
+def run_pair(ctx, w, stack, upstream_alpn, http2, offers, close_mode="open"):
+    """close_mode: what the upstream peer does right after its handshake, i.e. while the proxy is still busy with the (async)
+    tls_established_server / tls_start_client hooks: 'open' = nothing, 'half-closed' = sends FIN (the connection handler clears
+    CAN_READ at once and queues ConnectionClosed behind the paused layer), 'closed' = connection gone."""
     if w.http2 != http2:
         w.tctx.configure(w.ta, http2=http2)
         w.http2 = http2
@@ -480,6 +501,13 @@ def run_pair(ctx, w, stack, upstream_alpn, http2, offers):
                     elif hasattr(w.ta, cmd.name):
                         getattr(w.ta, cmd.name)(*cmd.args())
                     queue.append(events.HookCompleted(cmd, None))
+                    if cmd.name == "tls_established_server" and close_mode != "open":
+                        # proxy/server.py::handle_connection on EOF: state updated immediately, event queued
+                        if close_mode == "half-closed":
+                            c.server.state &= ~connection.ConnectionState.CAN_READ
+                        else:
+                            c.server.state = connection.ConnectionState.CLOSED
+                        queue.append(events.ConnectionClosed(c.server))
                 elif isinstance(cmd, commands.OpenConnection):
                     cmd.connection.state = connection.ConnectionState.OPEN
                     queue.append(events.OpenConnectionCompleted(cmd, None))
@@ -512,6 +540,8 @@ def run_pair(ctx, w, stack, upstream_alpn, http2, offers):
         ctx.count("pair.upstream_not_first")  # the precondition "upstream already known" did not hold: not judged
         return "upstream-not-first"
     ctx.count("pair.oracle")
+    if close_mode != "open":
+        ctx.count("pair.upstream_closed_after_handshake")
     ctx.count("pair.upstream_negotiated_some" if upstream else "pair.upstream_negotiated_none")
     if sel != NONE:
         ctx.count("pair.client_selected_some")
@@ -519,10 +549,11 @@ def run_pair(ctx, w, stack, upstream_alpn, http2, offers):
     bad = oracle(stack, upstream, http2, eff, sel)
     if bad:
         ctx.violation("pair:" + "+".join(bad), {"stack": stack, "upstream_peer_alpn": list(upstream_alpn), "upstream_negotiated": upstream,
+                                                 "upstream_after_handshake": close_mode, "server_state_at_end": str(c.server.state),
                                                  "http2": http2, "offers": list(eff), "client_got": sel,
                                                  "server_alpn_attribute": c.server.alpn, "hooks": hooks})
     ctx.seen("pair_hook_sequences", tuple(hooks))
-    return f"up={cls_of(upstream) if upstream else 'none'},client={cls_of(sel) if sel != NONE else NONE}"
+    return f"up={cls_of(upstream) if upstream else 'none'},{close_mode},client={cls_of(sel) if sel != NONE else NONE}"
 
 
 def cls_of(p: bytes):
@@ -539,7 +570,10 @@ def run(ctx):
         return conns[cfg]
 
     short_offers = [o for o in OFFERS if len(o) <= 2]
-    hs_space = [(cfg, o) for cfg in CONFIGS for o in ([None] + (short_offers if ctx.tier == "quick" else OFFERS))]
+    base_cfgs = [c for c in CONFIGS if c[3] == ("CLOSED" if c[1] is None else "OPEN")]  # 48, as before the state dimension
+    state_cfgs = [c for c in CONFIGS if c not in base_cfgs and c[0] != "swp-outer"]  # other upstream states (outer ignores upstream)
+    hs_space = [(cfg, o) for cfg in base_cfgs for o in ([None] + (short_offers if ctx.tier == "quick" else OFFERS))]
+    hs_space += [(cfg, o) for cfg in state_cfgs for o in (PAIR_CLIENT_QUICK if ctx.tier == "quick" else [None] + short_offers)]
     n_hs_enum = len(hs_space)
     inner_lists = INNER_QUICK if ctx.tier == "quick" else [None] + short_offers
     hist_space = [(oo, u, h, io) for oo in OUTER_OFFERS for u in UPSTREAMS for h in (True, False) for io in inner_lists]
@@ -549,8 +583,10 @@ def run(ctx):
     rs_space = [(t, h, o) for t in (modes.HttpProxy, modes.HttpUpstreamProxy) for h in (True, False)
                 for o in ([None] + (short_offers if ctx.tier == "quick" else OFFERS))]
     n_rs = len(rs_space)
-    pair_space = [(st, u, h, o) for st in ("transparent", "regular-inner") for u in UPSTREAM_PEERS for h in (True, False)
+    pair_space = [(st, u, h, o, "open") for st in ("transparent", "regular-inner") for u in UPSTREAM_PEERS for h in (True, False)
                   for o in (PAIR_CLIENT_QUICK if ctx.tier == "quick" else [None] + short_offers)]
+    pair_space += [(st, u, h, o, cm) for cm in ("half-closed", "closed") for st in ("transparent", "regular-inner") for u in UPSTREAM_PEERS
+                   for h in (True, False) for o in (PAIR_CLOSE_QUICK if ctx.tier == "quick" else PAIR_CLIENT_QUICK)]
     n_pair = len(pair_space)
     n_fixed = N_ENUM + n_hs_enum + n_hist + n_rs + n_pair
     n_total = n_fixed + (ctx.n_cases if ctx.tier == "thorough" else 0)
@@ -561,11 +597,8 @@ def run(ctx):
             if i < N_ENUM:
                 cfg = CONFIGS[i // len(OFFERS)]
                 offers = OFFERS[i % len(OFFERS)]
-                stack, upstream, http2 = cfg
+                stack, upstream, http2, state = cfg
                 conn = conn_for(cfg)
-                app = conn.get_app_data()
-                # the AppData must be the one real code built for this configuration
-                assert app["server_alpn"] == upstream and app["http2"] == http2
                 try:
                     r = tlsconfig.alpn_select_callback(conn, list(offers))
                 except Exception as e:  # totality of the callback
@@ -573,9 +606,9 @@ def run(ctx):
                     ctx.case(("cb", cfg, offers), nontrivial=bool(offers))
                     continue
                 selected = NONE if r is SSL.NO_OVERLAPPING_PROTOCOLS else r
-                judge(ctx, "callback", stack, upstream, http2, offers, selected)
-                ctx.case(("cb", stack, upstream, http2, offers), nontrivial=bool(offers),
-                         sample={"leg": "callback", "stack": stack, "upstream": upstream, "http2": http2,
+                judge(ctx, "callback", stack, upstream, http2, offers, selected, state)
+                ctx.case(("cb", stack, upstream, state, http2, offers), nontrivial=bool(offers),
+                         sample={"leg": "callback", "stack": stack, "upstream": upstream, "upstream_state": state, "http2": http2,
                                  "offers": list(offers), "selected": selected} if i % 997 == 5 else None)
                 continue
             r = ctx.rng
@@ -586,17 +619,19 @@ def run(ctx):
             elif i >= n_fixed and r.random() < 0.25:
                 pool = PROTOS + [bytes(r.choice(b"abcxyz-/.0129") for _ in range(r.randint(1, 12)))]
                 ups = tuple(r.choice(pool).decode() for _ in range(r.choice([0, 1, 1, 2, 3])))
-                pair = (r.choice(["transparent", "regular-inner"]), ups, r.random() < 0.5, tuple(r.choice(pool) for _ in range(r.randint(1, 5))))
+                pair = (r.choice(["transparent", "regular-inner"]), ups, r.random() < 0.5, tuple(r.choice(pool) for _ in range(r.randint(1, 5))),
+                        r.choice(["open", "half-closed", "closed"]))
             if pair is not None:
-                st, u, h, o = pair
+                st, u, h, o, cm = pair
                 try:
-                    outcome = run_pair(ctx, w, st, u, h, o)
+                    outcome = run_pair(ctx, w, st, u, h, o, cm)
                 except Exception as e:
                     ctx.violation("pair-raises", {"pair": [st, list(u), h, list(o) if o else o], "exc": repr(e)})
                     outcome = "raises"
-                ctx.case(("pair", st, tuple(cls_of(x.encode()) for x in u), h, tuple(cls_of(x) for x in o) if o is not None else None, outcome),
+                ctx.case(("pair", st, tuple(cls_of(x.encode()) for x in u), h, tuple(cls_of(x) for x in o) if o is not None else None, cm, outcome),
                          nontrivial=bool(o),
-                         sample={"leg": "pair", "stack": st, "upstream_peer_alpn": list(u), "http2": h, "offers": list(o) if o else o,
+                         sample={"leg": "pair", "stack": st, "upstream_peer_alpn": list(u), "upstream_after_handshake": cm, "http2": h,
+                                 "offers": list(o) if o else o,
                                  "outcome": outcome} if i % 53 == 3 else None)
                 continue
             if N_ENUM + n_hs_enum + n_hist <= i < N_ENUM + n_hs_enum + n_hist + n_rs:
@@ -634,7 +669,7 @@ def run(ctx):
                 cfg = r.choice(CONFIGS)
                 pool = PROTOS + [bytes(r.choice(b"abcxyz-/.0129") for _ in range(r.randint(1, 12))) for _ in range(3)]
                 offers = tuple(r.choice(pool) for _ in range(r.randint(4, 8)))
-            stack, upstream, http2 = cfg
+            stack, upstream, http2, state = cfg
             conn = w.start_client(*cfg)  # fresh connection object per handshake
             sel, srv = handshake(conn, offers)
             if sel is None:
@@ -642,12 +677,12 @@ def run(ctx):
                 ctx.case(("hs-incomplete", cfg), nontrivial=False)
                 continue
             eff = offers or ()
-            judge(ctx, "handshake", stack, upstream, http2, eff, sel)
+            judge(ctx, "handshake", stack, upstream, http2, eff, sel, state)
             ctx.count("handshake.client_server_agree")
             if sel != srv:
                 ctx.violation("handshake:client-server-disagree", {"cfg": cfg, "offers": list(eff), "client": sel, "server": srv})
-            ctx.case(("hs", stack, upstream, http2, tuple(cls_of(o) for o in eff)), nontrivial=bool(eff),
-                     sample={"leg": "handshake", "stack": stack, "upstream": upstream, "http2": http2,
+            ctx.case(("hs", stack, upstream, state, http2, tuple(cls_of(o) for o in eff)), nontrivial=bool(eff),
+                     sample={"leg": "handshake", "stack": stack, "upstream": upstream, "upstream_state": state, "http2": http2,
                              "offers": list(eff), "client_sees": sel} if i % 499 == 3 else None)
         ctx.extra["enumerated_callback_combinations"] = N_ENUM
         ctx.extra["enumerated_handshake_combinations"] = n_hs_enum
